@@ -389,7 +389,7 @@ TruncToInt(x) == ZMk(x.s, IF x.sc <= 0 THEN Shl(x.d, -x.sc) ELSE Shr(x.d, x.sc))
 ToIntOK(ty, x, r) ==
   LET t == TruncToInt(x)
       fits == IF ty = "bigint" THEN TRUE
-              ELSE IF ty \in {"u64", "u128"} /\ x.s < 0 THEN FALSE      \* a negative decimal never converts to an unsigned type
+              ELSE IF ty \in {"u8", "u16", "u32", "u64", "u128"} /\ x.s < 0 THEN FALSE      \* a negative decimal never converts to an unsigned type
               ELSE ZLe(TypeMin(ty), t) /\ ZLe(t, TypeMax(ty))
   IN IF fits THEN BigIs(r, t) ELSE Chk(IsNone(r), "out-of-range-must-be-none")
 IsIntegerOK(x, r) == BoolIs(r, x.sc <= 0 \/ LowAllZero(x.d, x.sc))
